@@ -268,6 +268,9 @@ def shrink_pair(pool, a, b, cls, wall=45.0):
                     (cur_a.get('service_mode') != cur_b.get('service_mode') and c.get('service_mode') != cur_a.get('service_mode')) or ('poison' in cur_a) != ('poison' in c):
                 continue      # knobs in which the two members differ stay
             cb = copy.deepcopy(c)
+            if cls == 'repeat-differs':
+                pairs.append((c, cb))          # the two members of a repeat are identical by definition and must stay so
+                continue
             if cur_a['cli'].get('num_threads') != cur_b['cli'].get('num_threads'):
                 cb['cli']['num_threads'] = cur_b['cli']['num_threads']
             for k in ('service_mode', 'seed', 'hashseed'):
@@ -460,6 +463,8 @@ def replay(args):
 
 def _pair_differs(obj, vals):
     ok = False
+    if obj['class'] == 'repeat-differs' and obj['pair'][0] != obj['pair'][1]:
+        return False               # not a repeat: a malformed replay file must not raise an alarm
     if vals is not None:
         if obj['class'] == 'ranks-differ':
             ok = allranks(vals[0]) != allranks(vals[1])
